@@ -177,6 +177,19 @@ def check_C20(ck, res, replay):
                 bad = "duplicate interpretation"
             elif kind == "ITER3" and seqs[0] != tuple(v):
                 bad = "does not start with the interpretation itself"
+            if not bad:
+                # the rest of the Iterator interface agrees with the sequence: count, last, nth, size_hint, the end is final
+                api = [l for l in a if l.startswith("api ")]
+                if api:
+                    kv = dict(x.split("=", 1) for x in api[0].split()[1:])
+                    hs = lambda t: ",".join(map(str, t))
+                    kk = len(seqs) // 2
+                    want_nth = "%d:%s" % (kk, hs(seqs[kk]) if kk < len(seqs) else "-")
+                    want_rest = ",".join("%d:%d" % (j, len(seqs) - j) for j in (1, len(seqs) // 2, max(0, len(seqs) - 1)) if j < len(seqs))
+                    if len(v) and kv.get("rest", want_rest) != want_rest:
+                        bad = "after j calls of next() the iterator does not count the remaining interpretations (j:count = %s, the sequence has %d elements)" % (kv.get("rest"), len(seqs))
+                    elif len(v) and (kv.get("count") != str(len(seqs)) or kv.get("last") != (hs(seqs[-1]) if seqs else "-") or kv.get("nth") != want_nth or kv.get("hint") != "1" or kv.get("fused") != "1"):
+                        bad = "count / last / nth / size_hint / behaviour after the end disagree with the sequence of next(): %s" % api[0]
         if bad and cid in large_ids:
             res.violations.append({"key": "iter:%s:long-vector-%d" % (kind, len(v)), "what": bad + " (vector of %d statements, undecided at %s)" % (len(v), [i for i, x in enumerate(v) if x > 1]),
                                    "kind": kind, "body": ["(vector of %d entries, see what)" % len(v)], "observed": [(a or ["-"])[0][:200]]})
@@ -392,7 +405,7 @@ def judge_ng(body, meta, a):
                 empties.append(w[1])     # the empty nogood is silently ignored by the code (known finding)
             else:
                 added.append(w[1])
-        elif w[0] in ("concl", "closure", "conclude", "dump"):
+        elif w[0] in ("concl", "closure", "conclude", "dump", "single", "disj", "contra", "pairs"):
             ans = answers.get("q%d" % qi)
             qi += 1
             if ans is None:
@@ -427,6 +440,30 @@ def judge_ng(body, meta, a):
                             bad.append(("changed", "closure changes a decided position"))
                         if I[i] == "u" and r[i] != "u" and any(t[i] != (r[i] == "T") for t in ext):
                             bad.append(("unsound-conclusion", "closure value at %d not forced" % i))
+            elif w[0] == "single":
+                exp = "".join(("T" if w[2] == "1" else "F") if i == int(w[1]) else "u" for i in range(n))
+                if ans.split()[1] != exp:
+                    bad.append(("single", "new_single_nogood(%s, %s) is %s" % (w[1], w[2], ans.split()[1])))
+            elif w[0] == "contra":
+                exp = any(a_ != "u" and b_ != "u" and a_ != b_ for a_, b_ in zip(w[1], w[2]))
+                if ans.split()[1] != ("1" if exp else "0"):
+                    bad.append(("contradicting", "is_contradicting(%s, %s) answers %s" % (w[1], w[2], ans.split()[1])))
+            elif w[0] == "disj":
+                if not any(a_ != "u" and b_ != "u" and a_ != b_ for a_, b_ in zip(w[1], w[2])):
+                    exp = "".join(a_ if a_ != "u" else b_ for a_, b_ in zip(w[1], w[2]))
+                    if ans.split()[1] != exp:
+                        bad.append(("disjunction", "disjunction of the compatible assignments %s and %s is %s, their union is %s" % (w[1], w[2], ans.split()[1], exp)))
+            elif w[0] == "pairs":
+                ps = [] if w[1] == "-" else [(int(x.split(":")[0]), x.split(":")[1] == "1") for x in w[1].split(",")]
+                d = {}
+                clash = False
+                for i_, v_ in ps:
+                    if i_ in d and d[i_] != v_:
+                        clash = True
+                    d.setdefault(i_, v_)
+                exp = "NONE" if (clash or not ps) else "".join(("T" if d[i] else "F") if i in d else "u" for i in range(n))
+                if ans.split()[1] != exp:
+                    bad.append(("pairs", "try_from_pair_iter(%s) gives %s, expected %s" % (w[1], ans.split()[1], exp)))
             elif w[0] == "dump":
                 parts = ans.split(" ", 1)
                 stored = [g for b in (parts[1].split("|") if len(parts) > 1 else []) for g in b.split(",") if g]
@@ -612,7 +649,18 @@ def check_C08(ck, res, replay):
         for _ in range(250 if res.tier == "quick" else 6000):
             text, n = gen.gen_adf(rng, nmax=6, depth=4, style=rng.below(3), layout={"shuffle": rng.chance(1, 3), "ws": rng.chance(1, 3)})
             if well_declared(text):      # (whitespace inserted inside a quoted label makes another label)
-                cf2.add("ADF", ["text " + gen.hexs(text), "sort none", "backend native", "q acs", "q table"], meta={"text": text})
+                # one document in three is handed to the parser object in two pieces (parse() called twice), cut behind a fact
+                cuts = [m_.end() for m_ in re.finditer(r"\.\s*(?=s\(|ac\()", text)]
+                two = None
+                if cuts and rng.chance(1, 3):
+                    c_ = rng.pick(cuts)
+                    t1, t2 = text[:c_], text[c_:]
+                    if well_declared(t1) and py_grammar(t1) is not None and py_grammar(t2) is not None and py_grammar(text) is not None:
+                        two = (t1, t2)
+                if two:
+                    cf2.add("ADF", ["text " + gen.hexs(two[0]), "sort none", "backend native", "q reparse " + gen.hexs(two[1]), "q acs", "q table"], meta={"text": text, "pieces": two})
+                else:
+                    cf2.add("ADF", ["text " + gen.hexs(text), "sort none", "backend native", "q acs", "q table"], meta={"text": text})
         impl2, model2 = correspond(ck, res, cf2, hbin, "C08.compile")
         for cid, (kind, body, meta) in cf2.meta.items():
             a, b = impl2.get(cid), model2.get(cid)
@@ -622,6 +670,13 @@ def check_C08(ck, res, replay):
             t = [l for l in a if " table " in l]
             acl = [l for l in a if " acs " in l]
             names_impl = [bytes.fromhex(x[1:]).decode("utf8", "replace") for x in a[0].split()[2].split(",")] if len(a[0].split()) > 2 else []
+            rp = [l for l in a if " reparse " in l]
+            if rp:
+                w_ = rp[0].split()
+                if w_[2] != "OK" or len(w_) < 4 or not w_[3].startswith("names="):
+                    res.violations.append({"key": "compile:second-parse", "what": "the second piece of a document is rejected or cannot be compiled by the parser that read the first piece: %s" % rp[0], "text": meta["text"], "pieces": meta.get("pieces")})
+                    continue
+                names_impl = [bytes.fromhex(x[1:]).decode("utf8", "replace") for x in w_[3][6:].split(",") if x]
             if t and acl and names_impl:
                 names, conds = oracle.parse_adf_text(meta["text"])
                 tts, _, _ = oracle.truth_tables(oracle.parse_table(t[0].split(" table ", 1)[1]), len(names_impl))
@@ -973,6 +1028,28 @@ def check_C13(ck, res, replay):
                     mism += 1
                     if mism <= 5:
                         res.broken.append(("correspondence", "feature set %s case %s: implementation and model differ" % (tag, cid), json.dumps({"body": body, "impl": a, "model": b})[:2500]))
+    # the counting interface of an ADF object: formulacounts of the conditions as written, facet_count of the grounded
+    # interpretation (decided statements have no counter-model / no model), path counts and depths of the conditions
+    adf_counts = 0
+    if hbin and not replay:
+        cf3 = gen.CaseFile()
+        rng3 = gen.Rng(res.seed ^ 0xC13A)
+        for text, origin in adf_case_stream(res, rng3, 150 if res.tier == "quick" else 4000, 7, with_tt2=False):
+            qs = [["counts", "0"], ["facets"], ["paths"], ["depths"], ["grounded"], ["facets"], ["counts", "0"], ["table"]]
+            cf3.add("ADF", ["text " + gen.hexs(text), "sort none", "backend native"] + ["q " + " ".join(q) for q in qs], prefix="f", meta={"text": text, "queries": qs})
+        impl3, model3 = correspond(ck, res, cf3, hbin, "C13.adf")
+        for cid, (kind, body, meta) in cf3.meta.items():
+            a, b = impl3.get(cid), model3.get(cid)
+            bad3, info3 = judge_adf(meta["text"], a, meta["queries"], "none", "native")
+            for key, what in bad3:
+                res.violations.append({"key": "adf:" + key, "what": what, "body": body, "meta": meta, "observed": a, "model": b})
+            adf_counts += 1
+            if a != b:
+                mism += 1
+                if mism <= 5:
+                    res.broken.append(("correspondence", "ADF case %s (counts / facets): implementation and model differ" % cid, json.dumps({"text": meta["text"], "impl": a, "model": b})[:2500]))
+    res.extra["adf_objects_counted"] = adf_counts
+    extra_eval += adf_counts
     # the command-line observation point: adf-bdd --counter nai prints the (counter-model, model) counts of every
     # acceptance condition as written; hybrid and naive mode, with and without sorting
     cli_counts = 0
@@ -1052,6 +1129,26 @@ def adf_case_stream(res, rng, n_random, nmax, with_tt2=True, tt3=0, style_max=1)
         yield text, "fixed"
 
 
+def judge_dict(a):
+    """the parser's dictionary and the variable container agree with the reported name list (both directions, size,
+    no entry for a label that does not occur); also after the parser has been sorted again"""
+    bad = []
+    if not a or not a[0].startswith("parse OK"):
+        return bad
+    n = len(a[0].split()[2].split(",")) if len(a[0].split()) > 2 else 0
+    for l in a:
+        w = l.split()
+        if w and w[0] == "dict":
+            vals = [] if w[2] == "-" else w[2].split(",")
+            if int(w[1]) != n or vals != [str(i) for i in range(n)] or w[3] != "none" or w[4] != "vc=1":
+                bad.append(("dictionary", "the parser's dictionary / variable container disagrees with the name list (%d names): %s" % (n, l)))
+        elif len(w) >= 5 and w[1] == "rebuild" and w[4].startswith("dict="):
+            k = len([x for x in w[3][6:].split(",") if x])
+            if w[4][5:].split(",") != [str(i) for i in range(k)] and k:
+                bad.append(("dictionary", "after sorting the parser again its dictionary disagrees with the name list: %s" % l))
+    return bad
+
+
 def judge_adf(text, a, queries, sort="none", backend=None):
     """judges the implementation's answers against the definitions by enumeration; returns [(key, what)]"""
     bad = []
@@ -1066,6 +1163,7 @@ def judge_adf(text, a, queries, sort="none", backend=None):
     if sorted(names) != sorted(names_impl):
         return [("names", "statement names differ: %r vs %r" % (names_impl, names))], None
     o = oracle.AdfOracle(names_impl, conds)
+    bad.extend(judge_dict(a))
     exp_cache = {}
     def expected(kind):
         if kind not in exp_cache:
@@ -1089,7 +1187,14 @@ def judge_adf(text, a, queries, sort="none", backend=None):
             if [got] != expected("grounded"):
                 bad.append(("grounded", "grounded: got %s, least fixpoint is %s" % (got, expected("grounded")[0])))
             info["grounded"] = got
-        elif kind in ("complete", "stable", "stablepre", "stablerew", "stmca", "stmcb", "stmng", "twoval"):
+            for l in a:
+                w = l.split()
+                if len(w) >= 4 and w[0] == "p%d" % k and w[1] == "printed":
+                    shown = bytes.fromhex(w[2][1:]).decode("utf8", "replace")
+                    want = "".join("%s(%s) " % (ch, nm) for ch, nm in zip(got, names_impl)) + "\n"
+                    if shown != want or w[3] != "same=1":
+                        bad.append(("printed", "the library prints the interpretation %s of %s as %r (through the PrintDictionary: %s)" % (got, names_impl, shown, w[3])))
+        elif kind in ("complete", "stable", "stablepre", "stablerew", "stmca", "stmcb", "stmng", "stmngch", "twoval"):
             sem = {"complete": "complete", "twoval": "twoval"}.get(kind, "stable")
             got = rw[1:]
             if got and got[0] == "NONTERMINATION":
@@ -1138,6 +1243,14 @@ def judge_adf(text, a, queries, sort="none", backend=None):
                 if memo != want or naive != want:
                     bad.append(("paths:wrong", "path counts of handle %d: count cache / memoisation gives %s, plain call gives %s, the diagram has %s (to bottom / to top)" % (h, memo, naive, want)))
                     break
+        elif kind == "facets" and not any(x[0] in ("rebuild", "reparse") for x in queries):
+            # facet_count of the grounded interpretation: a decided statement has no counter-model (true) / no model (false)
+            g = expected("grounded")[0]
+            for item, ch, nm in zip(rw[1:], g, names_impl):
+                cm, m = (int(x) for x in item.split(":")[0].split("/"))
+                if (ch == "T" and (cm != 0 or m == 0)) or (ch == "F" and (m != 0 or cm == 0)):
+                    bad.append(("facets:decided", "facet_count: statement %s is %s in the grounded interpretation but is reported with %d counter-models and %d models" % (nm, ch, cm, m)))
+                    break
         elif kind == "panicflow":
             info.setdefault("panicflow", []).append("panicked" if "outcome=panicked" in r else "returned")
             if "same=1" not in r:
@@ -1161,7 +1274,7 @@ def judge_adf(text, a, queries, sort="none", backend=None):
         if r is not None:
             seen.setdefault(key, r.split(" ", 1)[-1])
     info["n"] = len(names_impl)
-    info["nstable"] = len(expected("stable")) if any(q[0] in ("stable", "stmca", "stmcb", "stmng", "stablepre") for q in queries) else None
+    info["nstable"] = len(expected("stable")) if any(q[0] in ("stable", "stmca", "stmcb", "stmng", "stmngch", "stablepre") for q in queries) else None
     return bad, info
 
 
@@ -1298,7 +1411,7 @@ def ng_queries(rng):
     else:
         order = rng.shuffle(range(8))
         h = ["Static", ",".join(map(str, order)), "".join(rng.pick("01") for _ in range(8))]
-    return [[rng.pick(["stmng", "stmng", "twoval"])] + h]
+    return [[rng.pick(["stmng", "stmng", "twoval", "stmngch"])] + h]
 
 
 def check_C05(ck, res, replay):
@@ -1357,7 +1470,7 @@ def check_C12(ck, res, replay):
             progs.append((body, {"nvars": nv}))
         for text, origin in adf_case_stream(res, rng, 80 if quick else 2500, 7, with_tt2=False):
             qs = [["grounded"], ["complete"], ["stable"], ["stmca"], ["stmng", "MinModMinPathsMaxVarImp"], ["counts", "0"], ["paths"],
-                  ["roundtrip", "json"], ["paths"], ["depths"], ["ops", rand_ops(rng, 1)], ["paths"], ["roundtrip", "live"], ["ops", rand_ops(rng, 1)], ["grounded"], ["stmcb"],
+                  ["roundtrip", "json"], ["paths"], ["depths"], ["ops", rand_ops(rng, 1)], ["paths"], ["roundtrip", "live"], ["ops", rand_ops(rng, 1)], ["grounded"], ["stmcb"], ["facets"],
                   ["panicflow"] + rng.pick([["grounded"], ["complete"], ["stable"], ["stmca"], ["stmng", "Simple"], ["counts", "0"], ["counts", "1"], ["facets"], ["ops", rand_ops(rng, 1)]]), ["table"]]
             adfs.append((["text " + gen.hexs(text), "sort none"] + ["q " + " ".join(q) for q in qs], {"text": text, "queries": qs}))
     outs = {}
@@ -1739,7 +1852,7 @@ def rand_ops(rng, n):
 def c11_queries_for(n):
     def f(rng, b):
         pool = [["grounded"], ["complete"], ["stable"], ["stablepre"], ["stmca"], ["stmcb"], ["stmng", "Simple"], ["stmng", "MinModMaxVarImpMinPaths"],
-                ["twoval", "MinModMinPathsMaxVarImp"], ["stmng", "Rand"], ["counts", "0"], ["facets"]]
+                ["twoval", "MinModMinPathsMaxVarImp"], ["stmng", "Rand"], ["counts", "0"], ["facets"], ["stmngch", "Simple"]]
         qs = []
         for _ in range(3 + rng.below(8)):
             k = rng.below(10)
@@ -1859,6 +1972,16 @@ def check_C10(ck, res, replay):
                 body = ["text " + gen.hexs(text), "sort " + sort, "backend " + backend] + ["q " + " ".join(q) for q in qs]
                 cid = cf.add("ADF", body, meta={"text": text, "queries": qs, "sort": sort, "rename": ren, "pres": pres, "large": large, "backend": backend})
                 groups.setdefault(b, []).append(cid)
+            if backend == "native" and not large:
+                # a seventh presentation: the same framework handed to ONE parser object in two pieces (parse() called twice; all
+                # statements and some of the conditions first, an ADF is instantiated, then the remaining conditions, then again)
+                cut = rng.below(len(conds) + 1)
+                t1 = gen.render_adf(rng, names, conds[:cut], {})
+                t2 = "".join("ac(%s,%s)." % (nm, f) for nm, f in conds[cut:]) or "s(%s)." % names[0]
+                qs7 = [["grounded"], ["reparse", gen.hexs(t2)]] + qs
+                body = ["text " + gen.hexs(t1), "sort none", "backend native"] + ["q " + " ".join(q) for q in qs7]
+                cid = cf.add("ADF", body, meta={"text": t1 + t2, "queries": qs7, "sort": "none", "rename": None, "pres": 6, "large": large, "backend": backend})
+                groups.setdefault(b, []).append(cid)
     impl, model = correspond(ck, res, cf, hbin, "C10", env={"VERIF_CASE_TIMEOUT_MS": "30000"})
     nontriv = set()
     mism = 0
@@ -1874,10 +1997,20 @@ def check_C10(ck, res, replay):
             if meta["sort"] == "lexi" and names != sorted(names, key=lambda s: s.encode()):
                 res.violations.append({"key": "presentation:lexi-order", "what": "with lexicographic sorting statements are not reported in byte-wise label order: %s" % names,
                                        "presentations": [{"body": body, "meta": meta}], "observed": a[:1]})
+            for key, what in judge_dict(a):
+                res.violations.append({"key": "presentation:" + key, "what": what, "presentations": [{"body": body, "meta": meta}], "observed": a[:3]})
             inv = {v: k for k, v in (meta["rename"] or {}).items()}
             view = []
             for l in a[2:]:
                 w = l.split()
+                if len(w) >= 4 and w[1] == "reparse":
+                    if w[2] != "OK" or not w[3].startswith("names="):
+                        res.violations.append({"key": "presentation:second-parse", "what": "the second piece of the text is rejected or cannot be instantiated by the parser that read the first piece: %s" % l,
+                                               "presentations": [{"body": body, "meta": meta}], "observed": [l]})
+                    else:
+                        names = [bytes.fromhex(x[1:]).decode() for x in w[3][6:].split(",") if x]
+                        view = []         # what was asked before the second piece belongs to another framework
+                    continue
                 if len(w) >= 4 and w[1] == "rebuild" and w[3].startswith("names="):
                     names = [bytes.fromhex(x[1:]).decode() for x in w[3][6:].split(",") if x]
                     if w[2] == "lexi" and names != sorted(names, key=lambda s_: s_.encode()):
